@@ -1009,6 +1009,30 @@ impl St {
                     })
                 }))
             }
+            // `link_to_cd F C KEY REL DIR`: link the file named REL *as seen from the working directory DIR* (the cache is
+            // handed over as an absolute path); the process is back in the scratch directory afterwards
+            "link_to_cd" => {
+                need(a, 5)?;
+                let fl = parse_fl(a[0])?;
+                let c = parse_cache(a[1])?;
+                let key = parse_utf8(a[2])?;
+                let rel = parse_path(a[3])?;
+                let dir = parse_path(a[4])?;
+                let scratch = self.scratch.clone();
+                let cabs = format!("{scratch}/{c}");
+                Ok(clocked(&c, &key, || {
+                    if std::env::set_current_dir(format!("{scratch}/{dir}")).is_err() {
+                        return "err io notfound".to_string();
+                    }
+                    let r = guard(|| {
+                        res_sri(flav!(fl,
+                            cacache::link_to_sync(&cabs, &key, &rel);
+                            cacache::link_to(&cabs, &key, &rel).await))
+                    });
+                    let _ = std::env::set_current_dir(&scratch);
+                    r
+                }))
+            }
             "link_to_hash" => {
                 need(a, 3)?;
                 let fl = parse_fl(a[0])?;
@@ -1096,6 +1120,64 @@ impl St {
             }
 
             // ---------------- environment ----------------
+            // `oddcache F`: a whole little life (write, read, list, remove_hash, write, clear) in a cache directory whose
+            // NAME is not valid UTF-8 (`odd-\xFF` below the scratch directory; the other ops take cache names as
+            // strings).  Answers `ok <steps that answered ok>/<steps> <hex names of the scratch directory's children>`:
+            // the caller sees whether anything was created next to the cache.
+            "oddcache" => {
+                need(a, 1)?;
+                let fl = parse_fl(a[0])?;
+                use std::os::unix::ffi::{OsStrExt, OsStringExt};
+                let cache = std::path::PathBuf::from(std::ffi::OsString::from_vec(b"odd-\xff".to_vec()));
+                let data = b"odd cache data".to_vec();
+                let mut okc = 0;
+                let mut steps = 0;
+                let mut tally = |r: bool| {
+                    steps += 1;
+                    if r {
+                        okc += 1;
+                    }
+                };
+                let line = guard(|| {
+                    let w = flav!(fl,
+                        cacache::write_sync(&cache, "k", &data);
+                        cacache::write(&cache, "k", &data).await);
+                    let sri = w.as_ref().ok().cloned();
+                    tally(w.is_ok());
+                    let r = flav!(fl,
+                        cacache::read_sync(&cache, "k");
+                        cacache::read(&cache, "k").await);
+                    tally(matches!(&r, Ok(d) if d == &data));
+                    tally(cacache::list_sync(&cache).filter(|e| e.is_ok()).count() == 1);
+                    if let Some(sri) = &sri {
+                        let r = flav!(fl,
+                            cacache::remove_hash_sync(&cache, sri);
+                            cacache::remove_hash(&cache, sri).await);
+                        tally(r.is_ok());
+                    }
+                    let w = flav!(fl,
+                        cacache::write_hash_sync(&cache, &data);
+                        cacache::write_hash(&cache, &data).await);
+                    tally(w.is_ok());
+                    let r = flav!(fl,
+                        cacache::clear_sync(&cache);
+                        cacache::clear(&cache).await);
+                    tally(r.is_ok());
+                    "done".to_string()
+                });
+                if line != "done" {
+                    return Ok(line);
+                }
+                let mut names: Vec<String> = std::fs::read_dir(".")
+                    .map(|rd| {
+                        rd.flatten()
+                            .map(|e| hex::encode(e.file_name().as_bytes()))
+                            .collect()
+                    })
+                    .unwrap_or_default();
+                names.sort();
+                Ok(format!("ok {okc}/{steps} {}", names.join(",")))
+            }
             // `wait_until <unix ms>`: sleep, then spin, until the wall clock reaches that instant - several harness
             // processes started one after the other leave this op at (nearly) the same moment.
             "wait_until" => {
